@@ -426,7 +426,8 @@ pub fn child_main(case_path: &str, out_path: &str) -> i32 {
             tokio::time::sleep(Duration::from_millis(30)).await;
             let mut session = rdest::Session::new(m, own_id);
             let supervisor = async {
-                let deadline = if download_mode { Duration::from_secs(60) } else { Duration::from_secs(50) };
+                // C19 mode: the client retries once per second, so n scripted failures need at least n seconds
+                let deadline = if download_mode { Duration::from_secs(60) } else { Duration::from_secs(50 + 2 * case.tracker.len() as u64) };
                 loop {
                     tokio::time::sleep(Duration::from_millis(25)).await;
                     if download_mode {
@@ -685,7 +686,7 @@ pub fn check_faults(c: &E2eCase) -> Outcome {
     o.class_if(c.tracker.len() >= 60, "more-failures-than-channel-capacity");
     o.class_if(c.tracker_start_delay_ms > 0, "connection-refused-first");
     o.class_if(c.probes >= 2, "peer-leaves-while-tracker-fails");
-    let watchdog = Duration::from_secs(70 + 2 * c.tracker.len() as u64);
+    let watchdog = Duration::from_secs(90 + 3 * c.tracker.len() as u64);
     match run_child(c, watchdog) {
         Err(_) => {
             o.class("inconclusive");
